@@ -701,6 +701,32 @@ func (w *asWorld) claimTok(rng *Rng, finLeaves int) string {
 	return ""
 }
 
+// a claim token for a not yet claimed deposit that L1 info leaf `k` covers, proven against that very leaf ("" if none)
+func (w *asWorld) claimTokLeaf(rng *Rng, k int) string {
+	if k < 0 || k >= len(w.l1Leaves) {
+		return ""
+	}
+	lf := w.l1Leaves[k]
+	for src := -1; src < 4; src++ {
+		var ds []*asDep
+		n := 0
+		name := "m"
+		if src < 0 {
+			ds, n = w.metDeps, lf.metCount
+		} else {
+			ds, n = w.letDeps[uint32(src)], lf.letCount[uint32(src)]
+			name = fmt.Sprintf("r%d", src)
+		}
+		for i := n - 1; i >= 0; i-- {
+			if !ds[i].claimed {
+				ds[i].claimed = true
+				return fmt.Sprintf("c:%d:%d:%s:%d:%d", len(ds[i].metadata), rng.U64()%1000000, name, i, k)
+			}
+		}
+	}
+	return ""
+}
+
 func asWorldGen(r *Run, rng *Rng, w *asWorld, steps int) {
 	do := func(l string) string {
 		out := w.exec(l)
@@ -801,7 +827,58 @@ func asWorldGen(r *Run, rng *Rng, w *asWorld, steps int) {
 	if optWorld && rng.Bool() {
 		do("opt on")
 	}
+	// directed (once per world, half way): everything settled, two more deposits settled, then a certificate that carries
+	// claims and NO bridge exit (its new exit root is its previous one); it goes in error, the L1 info tree grows and the new
+	// leaves become final, a claim against the newest leaf arrives, and the replacement (which a PP node extends to the newest
+	// block) is built
+	directed := func() {
+		for t := 0; t < 4 && w.node != nil; t++ {
+			if c := openCert(); c != nil {
+				do(fmt.Sprintf("move %d S", c.id))
+			}
+			do("status")
+		}
+		if w.node == nil || openCert() != nil {
+			return
+		}
+		l2++
+		do(fmt.Sprintf("l2blk %d b:0:%d b:0:%d", l2, rng.U64()%1000000, rng.U64()%1000000))
+		do("epoch")
+		if c := openCert(); c != nil {
+			do(fmt.Sprintf("move %d S", c.id))
+		}
+		do("status")
+		ct := w.claimTokLeaf(rng, finLeaves-1)
+		if ct == "" || openCert() != nil {
+			return
+		}
+		l2++
+		do(fmt.Sprintf("l2blk %d %s", l2, ct))
+		do("epoch")
+		c := openCert()
+		if c == nil {
+			return
+		}
+		r.Count("branch:directed-claims-only-certificate")
+		// while it is undecided the L1 info tree grows, the new leaves become final and a claim against the newest one arrives
+		l1++
+		do(fmt.Sprintf("l1blk %d 2", l1))
+		do(fmt.Sprintf("fin %d", l1))
+		finLeaves = len(w.l1Leaves)
+		if ct2 := w.claimTokLeaf(rng, finLeaves-1); ct2 != "" {
+			l2++
+			do(fmt.Sprintf("l2blk %d %s", l2, ct2))
+			r.Count("branch:directed-retry-with-claim-against-newer-l1-leaf")
+		}
+		do(fmt.Sprintf("move %d E", c.id))
+		do("status") // the replacement is built here (retry at once) or at the next epoch
+		do("epoch")
+		do("epoch")
+	}
 	for i := 0; i < steps; i++ {
+		if i == steps/2 && w.node != nil {
+			directed()
+		}
 		x := rng.Intn(100)
 		if optWorld && rng.Chance(7) {
 			// the optimistic-mode flag flips; typically while a certificate of the other type is open or in error
